@@ -37,6 +37,11 @@ type env struct {
 
 func main() {
 	f := lib.ParseFlags()
+	// no single request to the C16 driver takes more than a few seconds: a driver that hangs (neither answers nor
+	// exits) is killed after 3 minutes instead of the library's 30, and the run ends as a harness failure
+	if os.Getenv("VERIF_DRIVER_TIMEOUT") == "" {
+		_ = os.Setenv("VERIF_DRIVER_TIMEOUT", "180")
+	}
 	if pf := os.Getenv("C16_CPUPROFILE"); pf != "" {
 		if fh, err := os.Create(pf); err == nil {
 			_ = pprof.StartCPUProfile(fh)
